@@ -118,8 +118,9 @@ def run_pool(pid, cases, want_oracle=True, procs=16, timeout=3000):
             return r.get(timeout=timeout)
         except mp.TimeoutError:
             pool.terminate()
-            return [dict(obs=["TIMEOUT"], fail=[dict(clause="timeout", detail="implementation run exceeded %ds" % timeout)])
-                    for _ in cases]
+            # one timeout verdict for the whole run (reported once, as "property no longer shown to hold"),
+            # never one oracle failure per case
+            return [dict(obs=["TIMEOUT"], fail=[], timeout=timeout) for _ in cases]
 
 
 # ------------------------------------------------------------------ the check
@@ -190,7 +191,12 @@ def run_check(pid, tier, seed, replay=None):
     # ---------------- implementation + oracle
     t = time.time()
     want_oracle = True
-    outs = run_pool(pid, cases, want_oracle, timeout=getattr(mod, "IMPL_TIMEOUT", 3000))
+    # time limits: per-module base, x4 for the thorough tier, x VERIF_TIMEOUT_SCALE on a loaded machine
+    tscale = (4.0 if tier == "thorough" else 1.0) * float(os.environ.get("VERIF_TIMEOUT_SCALE", "1"))
+    impl_timeout = int(getattr(mod, "IMPL_TIMEOUT", 3000) * tscale)
+    coq_timeout = int(getattr(mod, "COQ_TIMEOUT", 1200) * tscale)
+    outs = run_pool(pid, cases, want_oracle, timeout=impl_timeout)
+    impl_timed_out = bool(outs) and all("timeout" in o for o in outs)
     times["impl_s"] = round(time.time() - t, 2)
 
     # ---------------- model
@@ -198,6 +204,9 @@ def run_check(pid, tier, seed, replay=None):
     terms, idx = [], []
     skipped = 0
     for i, c in enumerate(cases):
+        if impl_timed_out:
+            skipped += 1
+            continue
         try:
             term = mod.coq_case(c)
         except Exception as e:
@@ -211,7 +220,7 @@ def run_check(pid, tier, seed, replay=None):
     model_ok = proof_or_model_ok(mod)
     if model_ok:
         mvals = coqrun.eval_terms(pid, mod.COQ_HEADER, terms, shard=getattr(mod, "SHARD", 300),
-                                  timeout=getattr(mod, "COQ_TIMEOUT", 1200), digest=True)
+                                  timeout=coq_timeout, digest=True) if not impl_timed_out else []
     else:
         mvals = [("ERR", "model not built")] * len(terms)
 
@@ -230,7 +239,7 @@ def run_check(pid, tier, seed, replay=None):
             bad.append((k, i, iv))
     # second pass: full model observable for (a few of) the disagreeing cases
     full = coqrun.eval_terms(pid, mod.COQ_HEADER, [terms[k] for k, _, _ in bad[:8]], shard=1, tag="-full",
-                             timeout=getattr(mod, "COQ_TIMEOUT", 1200)) if bad else []
+                             timeout=coq_timeout) if bad else []
     for n_, (k, i, iv) in enumerate(bad):
         mv = full[n_] if n_ < len(full) else None
         if isinstance(mv, tuple):
@@ -290,6 +299,11 @@ def run_check(pid, tier, seed, replay=None):
                                observed_impl=iv, broken="corr:%s (model coq/model/%s_Model.v vs implementation; %d of %d cases disagree)"
                                % (pid, pid, len(mismatches), len(idx)), impl_exc=outs[i].get("exc")),
                           "corr", nofail=True)
+    if impl_timed_out:
+        rep.violation(dict(kind="correspondence-break", clause=None, input=None,
+                           detail="the implementation run (adapter + oracle over %d cases) exceeded its time limit of %d s; "
+                                  "nothing was compared" % (len(cases), impl_timeout),
+                           broken="corr:%s implementation run timed out" % pid), "timeout", nofail=True)
     if model_errs:
         i, msg = model_errs[0]
         rep.violation(dict(kind="correspondence-break", clause=None, input=cases[i], detail=msg,
